@@ -3139,7 +3139,7 @@ class _Simu(_IObserver, _params.Updatable, ABC):
             If True, the output will represent values at nodes; if False, values on elements will be derived.
         storedOnNodes : bool, optional
             Whether the input values are stored at nodes (True) or on elements (False), by default None.\n
-            If None, the storage is guessed from the shape of the values, which is ambiguous for a flat nodal vector (Nn * dof_n,) when Nn * dof_n == Ne.
+            If None, the storage is guessed from the shape of the values, which is ambiguous when Nn * dof_n == Ne or Nn == Ne.
 
         Returns
         -------
